@@ -47,7 +47,7 @@ theorem step_dones {V : Variant} {v1 : Bool} {sS sR : List Bytes} {s s' : State}
     (hev : isPipeAdd ev = false) (hp : isPoll ev = false)
     (ho : ∀ o ∈ outs, isDone o = true ∧ tame o = true)
     (hR' : R V v1 sS sR s' (outs.foldl (pairOut .none) { j with lastPoll := none })) :
-    R' V v1 sS sR s' (pairStep j ev outs) := by
+    R' V v1 sS sR s' (pairStepOld j ev outs) := by
   have ht := tame_all (fun o h => (ho o h).2)
   rw [pairStep_eq (j := j) hR.1.err ht.1, hpre]
   simp only []
